@@ -44,6 +44,11 @@ def main(tier, seed):
         n = 40 if tier == "quick" else 1500
         tmp = tempfile.mkdtemp(prefix="c14", dir=BUILD)
         inputs = ["a", "ab\n", "\n", "\n\n", "x\n\ny", "".join(chr(c) for c in BOUNDARY), "".join(chr(c) + "\n" for c in BOUNDARY), "A" * 3000, "\n" * 50 + "z"]
+        # long lines with multi-byte characters straddling the usual buffer sizes (seeded change C14-stdin-chunk-8192)
+        for B in (4096, 8192, 16384, 65536):
+            for off in (1, 2, 3):
+                inputs.append("a" * (B - off) + chr(rng.choice([0xE9, 0xAC00, 0x1F600])) * 3 + "\n")
+        inputs += ["a" + "\u00e9" * 5000, "\uac00" * 3000 + "\n", "ab" + "\U0001F600" * 2100]
         inputs += [rand_input(rng) for _ in range(n)]
         jobs = []; meta = []
         for i, text in enumerate(inputs):
